@@ -166,13 +166,12 @@ def mon_c02(ex, info, col):
                             out.append(V("C02", "C02:FINISHED-remaining-not-reported-0", ex,
                                          {"task": tn, "t": t, "remaining": b[1]}))
                     if a[0] == S.T_WORKING and a[1] < EPS and b[0] != S.T_FINISHED:
-                        # dependencies permitting: judged on the state *before* this update, so a
-                        # predecessor finishing in the same update gives no claim either way
                         col.checks["c02.finish-next-step"] += 1
-                        if finish_deps_hold(info, tn, prev_rec):
+                        # judged on the state after this update: finishing is propagated along FF/SF links within one update
+                        if finish_deps_hold(info, tn, phs["updated"][1]):
                             out.append(V("C02", "C02:not-FINISHED-at-first-step-after-zero", ex,
                                          {"task": tn, "t": t, "state": S.TSTATE_NAME.get(b[0], b[0]),
-                                          "preds": [(pn, k, S.TSTATE_NAME.get(prev_rec["tasks"][pn][0])) for pn, k in info.preds[tn]]}))
+                                          "preds": [(pn, k, S.TSTATE_NAME.get(phs["updated"][1]["tasks"][pn][0])) for pn, k in info.preds[tn]]}))
             if "updated" in phs and "allocated" in phs:
                 a = phs["updated"][1]["tasks"][tn]
                 b = phs["allocated"][1]["tasks"][tn]
@@ -211,7 +210,8 @@ def mon_c02(ex, info, col):
                 if rl[k] != 0.0:
                     out.append(V("C02", "C02:logged-FINISHED-with-nonzero-remaining", ex, {"task": tn, "k": k, "remaining": rl[k]}))
         ts = info.tasks[tn]
-        if rl and sl and sl[0] in (S.T_NONE, S.T_READY):
+        # (at a project-wide absence step a WORKING automatic task is *logged* READY and may have progressed: no claim there)
+        if rl and sl and (sl[0] == S.T_NONE or (sl[0] == S.T_READY and 0 not in (ex.opts.get("absence") or ()))):
             exp = ts.get("work", 1.0) * (1.0 - (ts.get("progress") or 0.0))
             col.checks["c02.initial"] += 1
             if abs(rl[0] - exp) > TOL:
@@ -329,7 +329,7 @@ def mon_c04(ex, info, col):
             new_w = [w for w in after_w if w not in before_w]
             for w in new_w:
                 col.checks["c04.worker"] += 1
-                col.nontrivial.add(hash((info.key, w, tn, tuple(sorted(info.workers[w].get("skills", {}).items())), info.tasks[tn].get("fixw") and tuple(info.tasks[tn]["fixw"]))))
+                col.nontrivial.add(hash((info.key, w, tn, tuple(sorted(info.workers[w].get("skills", {}).items())), None if info.tasks[tn].get("fixw") is None else tuple(info.tasks[tn]["fixw"]))))
                 why = info.worker_static_ok(w, tn)
                 if why is None and (working is False or res_absent(ex, info, w, t)):
                     why = "absent at the moment of allocation"
@@ -380,13 +380,12 @@ def mon_c06(ex, info, col):
                 if tv[0] == S.T_WORKING and tv[1] < EPS and prev_rec is not None and not info.prefinished(tn):
                     col.checks["c06.finish"] += 1
                     pv = prev_rec["tasks"][tn]
-                    # remaining had reached zero by the end of the previous step and the finish
-                    # dependencies held already then (a predecessor finishing in this very update is
-                    # left out: no claim on same-step chains)
-                    if pv[0] == S.T_WORKING and pv[1] < EPS and finish_deps_hold(info, tn, prev_rec):
-                        sf_fin = any(k == "SF" and prev_rec["tasks"][pn][0] == S.T_FINISHED for pn, k in info.preds[tn])
+                    # remaining had reached zero by the end of the previous step; the finish dependencies are judged on
+                    # the state after this update (finishing is propagated along FF/SF links within one update)
+                    if pv[0] == S.T_WORKING and pv[1] < EPS and finish_deps_hold(info, tn, su):
+                        sf_fin = any(k == "SF" and su["tasks"][pn][0] == S.T_FINISHED for pn, k in info.preds[tn])
                         sig = "C06:not-FINISHED-next-step-after-zero" + (":SF-pred-already-FINISHED" if sf_fin else "")
-                        out.append(V("C06", sig, ex, {"task": tn, "t": t, "preds": [(pn, k, S.TSTATE_NAME.get(prev_rec["tasks"][pn][0])) for pn, k in info.preds[tn]]}))
+                        out.append(V("C06", sig, ex, {"task": tn, "t": t, "preds": [(pn, k, S.TSTATE_NAME.get(su["tasks"][pn][0])) for pn, k in info.preds[tn]]}))
         if "allocated" in phs:
             working, sa = phs["allocated"]
             if working:
